@@ -133,6 +133,15 @@ func scanSeg(c *explore.Ctx, in []byte, site string) ([]rawField, error, bool) {
 		c.Fail("Scan:panic:"+ps+":"+explore.PanicClass(pv), "Scan(% x) panicked: %v [%s]", trunc(in), pv, site)
 		return nil, nil, false
 	}
+	for rep := 0; rep < 3 && used > budget(len(in)); rep++ { // lazily flushed allocation statistics: only a reproducible excess counts
+		b0 := allocated()
+		explore.Catch(func() {
+			proto.Scan(in, func(proto.FieldNumber, proto.WireType, proto.RawValue) (bool, error) { return true, nil })
+		})
+		if u := allocated() - b0; u < used {
+			used = u
+		}
+	}
 	if used > budget(len(in)) {
 		c.Fail("Scan:alloc", "Scan of %d bytes allocated %d bytes [%s]", len(in), used, site)
 	}
